@@ -115,6 +115,12 @@ def build_driver(race=False):
     if key in _built:
         return _built[key]
     shutil.copy(os.path.join(REPO, "go.sum"), os.path.join(HARNESS, "go.sum"))
+    # the harness module resolves the code under verification through a replace directive: point it at REPO
+    gm = os.path.join(HARNESS, "go.mod")
+    txt = open(gm).read()
+    new = re.sub(r"replace github.com/transparency-dev/witness => \S+", "replace github.com/transparency-dev/witness => " + REPO, txt)
+    if new != txt:
+        open(gm, "w").write(new)
     os.makedirs(os.path.join(HARNESS, "bin"), exist_ok=True)
     out = os.path.join(HARNESS, "bin", "driver-race" if race else "driver")
     ov = overlay_json(os.path.join(HARNESS, "bin", "overlay.json"))
@@ -403,6 +409,41 @@ def seed_from_env():
 
 def read_ndjson(path):
     return [json.loads(l) for l in open(path) if l.strip()]
+
+
+class TraceIndex:
+    """Random access to a big ndjson trace without holding the parsed events in memory."""
+    def __init__(self, path):
+        import array
+        self.path = path
+        self.off = array.array("q")
+        pos = 0
+        with open(path, "rb") as f:
+            for line in f:
+                if line.strip():
+                    self.off.append(pos)
+                pos += len(line)
+        self.f = open(path, "rb")
+
+    def __len__(self):
+        return len(self.off)
+
+    def __getitem__(self, i):
+        if isinstance(i, slice):
+            return [self[j] for j in range(*i.indices(len(self)))]
+        if i < 0:
+            i += len(self)
+        self.f.seek(self.off[i])
+        return json.loads(self.f.readline())
+
+    def __iter__(self):
+        with open(self.path, "rb") as f:
+            for line in f:
+                if line.strip():
+                    yield json.loads(line)
+
+    def close(self):
+        self.f.close()
 
 
 def build_feedbastion_writer_test():
